@@ -54,7 +54,8 @@ def c10(tier):
     pd = props_lalr.dump_dirs(sc, [c["gen"]["dir"] for c in pacc])
     # ---- lexer specifications
     lcs = json.loads(json.dumps(list(lgrams.CURATED_GREEDY) + list(lgrams.CURATED_MODES) + lgrams.ng_cases()[::7] + lgrams.ng_cases()[-4:]
-                                + lgrams.nullable_cases() + lgrams.random_specs(seed() + 10, 30 if quick else 300)))
+                                + lgrams.nullable_cases() + lgrams.random_specs(seed() + 10, 30 if quick else 300)
+                                + lgrams.range_triple_specs(random.Random(seed() + 23), 30 if quick else 400)))
     lmod = new_subject_module(sc, "xvl", with_simplelexer=True)
     lcase.generate(sc, lox, lmod, lcs)
     lacc = [c for c in lcs if c["gen"]["ok"]]
@@ -81,6 +82,23 @@ def c10(tier):
                                                                    "actions": s["actions"], "actmodes": s["actmodes"]} for s in m["states"]]}
                                  for m in sorted(d["modes"], key=lambda m: m["index"])]})
         owners.append(("l", c))
+    # ---- the real specifications shipped with lox (large tables: multi-digit terminal and state numbers)
+    real = ["internal/parser", "examples/calc", "examples/jsonc", "examples/bolox"]
+    rd = props_lalr.dump_dirs(sc, [os.path.join(REPO, d) for d in real])
+    for d, dmp in zip(real, rd):
+        if not dmp["ok"]:
+            rep.note("dump failed for %s: %s" % (d, dmp["diag"][:100]))
+            continue
+        pt = pcase.scrape_parser(os.path.join(REPO, d, "parser.gen.go"))
+        lt = lcase.scrape_lexer(os.path.join(REPO, d, "lexer.gen.go"))
+        tcases.append({"id": d, "haspar": True, "haslex": True,
+                       "pt": {"actions": pt["actions"], "goto": pt["goto"], "rules": pt["rules"], "termCounts": pt["termCounts"], "accept": pt["accept"]},
+                       "g": {"rules": dmp["rules"], "prods": [{"lhs": p["lhs"], "rhs": p["rhs"]} for p in dmp["prods"]]},
+                       "states": dmp["states"], "nterm": len(dmp["terminals"]), "lt": lt,
+                       "modes": [{"name": m["name"], "states": [{"accept": s["accept"], "ng": s["ng"], "trans": s["trans"],
+                                                                   "actions": s["actions"], "actmodes": s["actmodes"]} for s in m["states"]]}
+                                 for m in sorted(dmp["modes"], key=lambda m: m["index"])]})
+        owners.append(("r", {"id": d}))
     sd = spec_dir(sc, "spec-tables")
     json.dump(tcases, open(os.path.join(sd, "tcases.json"), "w"))
     r = tlc(sc, "TableObs", cfg="TableObs.cfg", cwd=sd, timeout=2400)
@@ -90,13 +108,13 @@ def c10(tier):
         raise Infra("TableObs judged %d of %d cases (%s)\n%s" % (len(vs), len(tcases), r.violation, r.out[-1500:]))
     for i, (kind, c) in enumerate(owners):
         v = vs[i]
-        rp = PP.replay_of(c) if kind == "p" else PL.lreplay(c)
+        rp = PP.replay_of(c) if kind == "p" else (PL.lreplay(c) if kind == "l" else {"dir": c["id"]})
         if not (v["pwf"] and v["lwf"]):
             rep.failure("c10.table-ill-formed:" + c["id"], "%s: emitted %s table is not well formed (%s)" % (
-                c["id"], "parser" if kind == "p" else "lexer", json.dumps(v)), rp)
+                c["id"], {"p": "parser", "l": "lexer", "r": "parser/lexer"}[kind], json.dumps(v)), rp)
         elif not (v["pf"] and v["lf"]):
             rep.failure("c10.table-differs-from-automaton:" + c["id"], "%s: decoded %s rows differ from the constructed automaton" % (
-                c["id"], "parser" if kind == "p" else "lexer"), rp)
+                c["id"], {"p": "parser", "l": "lexer", "r": "parser/lexer"}[kind]), rp)
     # ---- lexer tables against the rules, all strings (as-built non-greedy meaning)
     lcases = [tlc_lcase(c) for c in lacc]
     jobs = [{"c": ci + 1, "m": mi + 1} for ci, c in enumerate(lacc) for mi in range(len(c["modes"]))]
